@@ -162,7 +162,7 @@ func init() {
 			// all patterns of 1..2 tokens; 3-token and longer patterns are seeded samples
 			maxTok, sample := 2, 150
 			if rc.Tier == "thorough" {
-				sample = 4000
+				sample = 600
 			}
 			nr := enumerateMaskRules(maxTok, sample, rc.Seed)
 			rc.Natives["rules"] = nr
@@ -174,7 +174,7 @@ func init() {
 			jobs := []Job{{Pkg: "rules", Func: "verifC03aVacuity", Vacuity: true}, {Pkg: "rules", Func: "verifMaskVacuity", Vacuity: true}}
 			maxN, maxL := 3, 10
 			if tier == "thorough" {
-				maxN, maxL = 4, 14
+				maxN, maxL = 4, 12
 			}
 			for n := 1; n <= maxN; n++ {
 				jobs = append(jobs, Job{Pkg: "rules", Func: "verifC03a", Args: []int64{int64(n)}})
@@ -190,7 +190,7 @@ func init() {
 		MustReach: []string{"c03a.translated", "c03b.rule"},
 		Bounds: map[string]string{
 			"quick":    "(a) pattern of 1..3 symbolic bytes over {a . * ^ | / $ \\}; (b) every mask pattern of 1..2 tokens over 22 tokens (all regexp metacharacters, * ^ |, letters of both cases, digit, % - _ space), each also with a leading || and a trailing /*, with and without $match-case, plus 150 seeded longer patterns: for each, ALL URLs of 0..10 printable-ASCII bytes",
-			"thorough": "(a) 1..4 bytes; (b) 1..2 tokens plus 4000 seeded patterns of 3..5 tokens, URLs of 0..14 bytes",
+			"thorough": "(a) 1..4 bytes; (b) 1..2 tokens plus 600 seeded patterns of 3..5 tokens, URLs of 0..12 bytes (4000 patterns with URLs up to 14 bytes did not finish in 90 minutes and are not claimed)",
 		},
 		Outside:     []string{"URLs longer than the bound", "non-ASCII bytes", "patterns above the token bound (sampled only)", "regexp.Compile itself: the compiled program is obtained natively and its Pike-VM semantics encoded; the encoding is validated against MatchString on concrete strings each run"},
 		Assumptions: []string{"strings.Replacer modelled for the concrete single-byte table read from the live specialCharReplacer initialiser", "regexp encoding == (*Regexp).MatchString on ASCII (validated on concrete strings each run)", "reference automaton written from the documented mask syntax (rules/regex.go comments and the knowledge-base text)"},
